@@ -1144,3 +1144,7 @@ N('C04', 'nat_const_ineq tests the type with is_nat', 'data/nat.py',
   "        return m.get_type() == NatType and m.is_number() and n.is_number() and m.dest_number() != n.dest_number()", "        if not m.is_nat():\n            return False\n        return m.is_number() and n.is_number() and m.dest_number() != n.dest_number()")
 B('C05', 'nat_eval takes the value of any numeral', 'data/nat.py',
   "        n = t.dest_number()\n        if not (isinstance(n, int) and n >= 0):\n            raise ConvException('nat_eval: %s' % str(t))\n        return n", "        n = t.dest_number()\n        return n", 'C05.T10', 'numeral-leaf')
+B('C09', 'heuristic branch assigns the function part without the bound-variable test', 'logic/matcher.py',
+  "                        if bd_vars and t.fun.has_vars(bd_vars):\n                            raise MatchException(trace)\n", "", 'C09.N12', 'free-of-stand-ins')
+B('C09', 'stand-in chosen against the two bodies only', 'logic/matcher.py',
+  "                for s in inst.values():\n                    var_names.extend(v.name for v in s.get_vars())\n", "", 'C09.N13', 'avoid-list-includes-instantiation')
